@@ -535,7 +535,20 @@ class Type4ATag(Type4Tag):
         rats_res = self.clf.exchange(rats_cmd, timeout=0.03)
         log.debug("rcvd RATS response: {0}".format(hexlify(rats_res).decode()))
 
-        fsci, fwti = rats_res[1] & 0x0F, rats_res[3] >> 4
+        # The answer to select is TL, T0 (if TL > 1), the interface bytes
+        # TA(1), TB(1), TC(1) as announced by T0, and historical bytes.
+        # FSCI is in T0 and FWI in TB(1), the defaults (ISO/IEC 14443-4)
+        # are FSCI 2 and FWI 4 when T0 or TB(1) are not transmitted.
+        if len(rats_res) == 0:
+            raise nfc.clf.ProtocolError("empty RATS response")
+        fsci, fwti = 2, 4
+        if len(rats_res) > 1:
+            fsci = rats_res[1] & 0x0F
+            if rats_res[1] & 0x20:
+                tb1_index = 3 if rats_res[1] & 0x10 else 2
+                if len(rats_res) <= tb1_index:
+                    raise nfc.clf.ProtocolError("truncated RATS response")
+                fwti = rats_res[tb1_index] >> 4
         if fsci > 8:
             log.warning("FSCI with RFU value in RATS_RES")
             fsci = 8
